@@ -1669,6 +1669,38 @@ def section_histories(ctx, r, corr):
                          '    assert F(float(e)) == w, (dict(row), e, w)\n', detail=dict(history='\n'.join(lines)))
                 break
 
+
+def section_polyscale_zero(ctx):
+    """PolyScaleComposite with scalar 0 (D73): refused, or every reported energy is the submitted polynomial's energy"""
+    import warnings
+    for vt in ('SPIN', 'BINARY'):
+        for scalar in (0, 0.0):
+            for ignored in (None, [('a', 'b')]):
+                poly = dimod.BinaryPolynomial({('a',): 1, ('a', 'b'): -2, ('a', 'b', 'c'): .5, (): 1.5}, vt)
+                kw = dict(scalar=scalar)
+                if ignored is not None:
+                    kw['ignored_terms'] = ignored
+                ctx.case(('polyscale0', vt, repr(scalar), repr(ignored)), nontrivial=True)
+                ctx.tick('polyscale scalar=0')
+                try:
+                    with warnings.catch_warnings():
+                        warnings.simplefilter('ignore')
+                        ss = dimod.PolyScaleComposite(dimod.ExactPolySolver()).sample_poly(poly, **kw)
+                except ValueError:
+                    ctx.tick('polyscale scalar=0 refused')
+                    continue
+                for smp, e in zip(ss.samples(sorted_by=None), ss.record.energy):
+                    if not (e == poly.energy(dict(smp))):
+                        ctx.fail('property', 'PolyScaleComposite.sample_poly', 'scalar=0',
+                                 f'sample_poly(poly, {kw}) on a {vt} polynomial reports energy {e!r} for {dict(smp)}, the polynomial gives {poly.energy(dict(smp))!r}',
+                                 repro=('import dimod, warnings\nwarnings.simplefilter("ignore")\n'
+                                        f'p = dimod.BinaryPolynomial({{("a",): 1, ("a", "b"): -2, ("a", "b", "c"): .5, (): 1.5}}, {vt!r})\n'
+                                        'try:\n    ss = dimod.PolyScaleComposite(dimod.ExactPolySolver()).sample_poly(p, ' + ', '.join(f'{k}={v!r}' for k, v in kw.items()) + ')\n'
+                                        'except ValueError:\n    raise SystemExit(0)\n'
+                                        'for s, e in zip(ss.samples(sorted_by=None), ss.record.energy):\n    assert e == p.energy(dict(s)), (dict(s), e)\n'))
+                        break
+
+
 def run(ctx):
     r = ctx.rng
     ctx.rule = ('random small problems (0-5 variables over mixed labels in non-sorted order, dyadic biases, constants, both vartypes) x '
@@ -1685,6 +1717,7 @@ def run(ctx):
     section_cqm(ctx, r, corr)
     section_round7(ctx, r, corr)
     section_histories(ctx, r, corr)
+    section_polyscale_zero(ctx)
     got = run_driver('enumdriver', corr.lines)
     ctx.corr_lines += len(corr.lines)
     for i, ln in enumerate(corr.lines):
